@@ -54,6 +54,7 @@ fn oracles() -> Vec<(&'static str, Enumerate, Check)> {
         ("c06_keeps", o_unify::enum_keeps, o_unify::check_keeps),
         ("c07_sym", o_mgu::enum_sym, o_mgu::check_sym),
         ("c08_resolve", o_mgu::enum_resolve, o_mgu::check_resolve),
+        ("c08_fn_answers", o_solver::enum_fn_answers, o_solver::check_fn_answers),
         ("c09_program", o_unify::enum_anon_program, o_unify::check_anon_program),
         ("c05_reask", o_solver::enum_reask, o_solver::check_reask),
         ("c03_not", o_solver::enum_not, o_solver::check_not),
